@@ -171,6 +171,23 @@ func (s *pfState) killField(name string, keepLen bool) {
 	has := func(k string) bool {
 		return strings.Contains(k, "."+name+".") || strings.HasSuffix(k, "."+name) || strings.Contains(k, "."+name+"[")
 	}
+	// bounds expressed in terms of the length of something reached through the field are stale in any case
+	for k, ls := range s.lenGE {
+		var kept []lin
+		for _, l := range ls {
+			if strings.HasPrefix(l.base, "len:") && has(strings.TrimPrefix(l.base, "len:")) {
+				continue
+			}
+			kept = append(kept, l)
+		}
+		if len(kept) != len(ls) {
+			if len(kept) == 0 {
+				delete(s.lenGE, k)
+			} else {
+				s.lenGE[k] = kept
+			}
+		}
+	}
 	if !keepLen {
 		for k := range s.lenGE {
 			if has(k) {
@@ -1033,7 +1050,12 @@ func (r *pfRun) transfer(b *ssa.BasicBlock, st *pfState, check bool) []*pfState 
 					}
 				}
 			}
-		case *ssa.Alloc, *ssa.MakeClosure, *ssa.MakeMap, *ssa.MakeSlice, *ssa.MakeChan, *ssa.MakeInterface:
+		case *ssa.MakeSlice:
+			// len(make([]T, n)) == n
+			if l := r.evalInt(x.Len, st); l.base != "" || l.off > 0 {
+				st.addLen(r.key(x), l)
+			}
+		case *ssa.Alloc, *ssa.MakeClosure, *ssa.MakeMap, *ssa.MakeChan, *ssa.MakeInterface:
 		}
 	}
 	outs := make([]*pfState, len(b.Succs))
@@ -1080,6 +1102,11 @@ func (r *pfRun) doStore(x *ssa.Store, st *pfState) {
 		}
 		if r.valueNonNil(x.Val, st) {
 			st.nonNil[key] = true
+		}
+		if ms, ok := x.Val.(*ssa.MakeSlice); ok {
+			if l := r.evalInt(ms.Len, st); l.base != "" || l.off > 0 {
+				st.addLen(key, l)
+			}
 		}
 	case *ssa.IndexAddr:
 		// element store: affects no tracked fact
@@ -1614,6 +1641,19 @@ func (r *pfRun) covered(st *pfState, S string, idx lin, strict bool) (bool, stri
 	for _, l := range st.lenGE[S] {
 		if l.base == idx.base && l.off >= need {
 			return true, fmt.Sprintf("len(%s) >= %s", S, l)
+		}
+	}
+	// len(S) >= len(T) + k  and  len(T) >= idx + 1 - k
+	for _, l := range st.lenGE[S] {
+		if !strings.HasPrefix(l.base, "len:") || l.off < 0 {
+			continue
+		}
+		T := strings.TrimPrefix(l.base, "len:")
+		if T == S {
+			continue
+		}
+		if ok, why := r.covered(st, T, lin{idx.base, idx.off - l.off, idx.nonNeg}, strict); ok {
+			return true, fmt.Sprintf("len(%s) >= %s and %s", S, l, why)
 		}
 	}
 	return false, ""
